@@ -6,8 +6,10 @@ package xmpp
 // They add no behaviour: each one forwards to unexported code of this package.
 
 import (
+	"bufio"
 	"encoding/xml"
 	"io"
+	"net"
 	"time"
 
 	"golang.org/x/xerrors"
@@ -90,3 +92,13 @@ func VerifComponentHandshake(c *Component, streamId string) string { return c.ha
 
 // VerifComponentTransport returns the component's current transport.
 func VerifComponentTransport(c *Component) Transport { return c.transport }
+
+// VerifXMPPTransportSetConn installs an already established connection in an XMPPTransport, doing what Connect
+// does after the dial (stream logger, decoder, close channel) without opening the stream.
+func VerifXMPPTransportSetConn(t *XMPPTransport, conn net.Conn) {
+	t.isSecure = false
+	t.conn = conn
+	t.closeChan = make(chan stanza.StreamClosePacket, 1)
+	t.readWriter = newStreamLogger(t.conn, t.logFile)
+	t.decoder = xml.NewDecoder(bufio.NewReaderSize(t.readWriter, maxPacketSize))
+}
